@@ -16,6 +16,7 @@ import (
 	"fmt"
 	"math"
 	"runtime"
+	"runtime/debug"
 	"sort"
 	"sync"
 
@@ -431,6 +432,9 @@ func sweepBlockRun(s space, lo, hi uint64) (bad []uint64) {
 }
 
 func runSweep(c *core.Ctx, t *core.Trace) {
+	// the sweep allocates a few small slices per pattern over a small live heap: at the default pacing the collector
+	// runs every few milliseconds, and on a loaded machine each of its handshakes waits for descheduled threads
+	defer debug.SetGCPercent(debug.SetGCPercent(800))
 	spaces := sweepSpaces(c.Thorough(), uint64(c.Seed))
 	workers := runtime.NumCPU()
 	var fails []mismatch
